@@ -360,7 +360,8 @@ def splitAudioOnTier(
 
     # Build the output name template
     name = os.path.splitext(os.path.split(wavFN)[1])[0]
-    orderOfMagnitude = int(math.floor(math.log10(len(entries))))
+    # Nothing to extract (log10(0) is undefined): no files are written
+    orderOfMagnitude = int(math.floor(math.log10(len(entries)))) if entries else 0
 
     # We want one more zero in the output than the order of magnitude
     outputTemplate = "%s_%%0%dd" % (name, orderOfMagnitude + 1)
